@@ -247,6 +247,18 @@ class SyncedList(SyncedCollection, MutableSequence):
         with self._overwrite_context(), self._suspend_sync:
             self._data.clear()
 
+    def pop(self, index=-1):  # noqa: D102
+        # The MutableSequence mixin implements this as a read followed by a
+        # deletion, which is not atomic with respect to other threads.
+        with self._load_and_save:
+            return self._data.pop(index)
+
+    def reverse(self):  # noqa: D102
+        # The MutableSequence mixin implements this as a sequence of item
+        # assignments, which is not atomic with respect to other threads.
+        with self._load_and_save, self._suspend_sync:
+            self._data.reverse()
+
     def __lt__(self, other):
         if isinstance(other, type(self)):
             return self() < other()
